@@ -42,7 +42,8 @@ claim("C01",
       technique="deductive verification: symbolic execution with generic string keys against contracts, z3 string theory")
 claim("C02",
       text="Proof: the real fit of ConstraintKMeans, PiecewiseTreeRegressor, IntervalRegressor, QuantileLinearRegression, ClassifierAfterKMeans, "
-           "TransferTransformer, KMeansL1L2, TransformedTargetRegressor2 is executed with one exceptional path per call into a dependency / inner estimator; on "
+           "TransferTransformer, KMeansL1L2 (+ _fit_l1), TransformedTargetRegressor2, DecisionTreeLogisticRegression, PiecewiseRegressor / "
+           "PiecewiseClassifier is executed with one exceptional path per call into a dependency / inner estimator; on "
            "EVERY exit (normal or exceptional) each hyper-parameter attribute is the same object/term as before, parameter objects received no set_params, "
            "no in-place write reached the caller's X, y, sample_weight; fit returns self; given estimators are cloned, never fitted, where the class promises "
            "it. Bounded: get_params and byte snapshots around successful and failing fits (NaN, one row, inner estimator failing on k-th fit) on 19 configurations.",
@@ -57,8 +58,9 @@ claim("C03",
            "Bounded: fit(A);fit(B) vs fresh fit(B), two fits under one global seed, integer random_state under two global seeds on 18 configurations; "
            "PiecewiseClassifier with buckets missing a class for random_state in {None,0,1,7}.",
       note="Same assumed contracts as C02; KMeansL1L2._fit_l1 is executed (every fitted attribute overwritten, the seeds of the runs drawn from the "
-           "generator built from random_state). PiecewiseRegressor/Classifier.fit and DecisionTreeLogisticRegression.fit are covered by the bounded stand-in only "
-           "for this property.",
+           "generator built from random_state); DecisionTreeLogisticRegression.fit and PiecewiseRegressor / PiecewiseClassifier.fit are under the refit "
+           "contract too (every fitted attribute overwritten, per-bucket generators seeded from random_state). In-repo steps _mapping_train, _fit_piecewise_estimator, the recursive node fit are opaque here "
+           "(functional contracts under C08 / C10).",
       technique="deductive verification: stale-state frame conditions + RNG provenance tags on the symbolic trace, z3")
 claim("C15",
       text="Proof: SkBaseTransformLearner binds the wrapped model's own method (or the callable), refuses unknown names; transform makes exactly one call of that "
